@@ -33,7 +33,7 @@ fn signed_claims() -> JMap<String, JValue> {
 fn c07_verify_without_iss_is_an_error() {
     // concrete member name: a symbolic one makes CBMC follow the "found" branch with an
     // unconstrained value and does not finish; the value of the member is symbolic instead
-    let k = "sub".to_string();
+    let k = (match VERIF_SEED % 3 { 0 => "sub", 1 => "aud", _ => "jti" }).to_string();
     jm::register("h.p.s", Header::new(Algorithm::ES256), signed_claims(), 7);
     jm::set_now(1000);
     // (never reached on a feasible path; keeps CBMC's exploration of the infeasible "iss found" branch cheap)
